@@ -141,3 +141,10 @@ mod tests {
         Ok(())
     }
 }
+
+/// Verification hooks (visibility only); compiled only with `--cfg xcp_verif`.
+#[cfg(xcp_verif)]
+pub mod verif_hooks {
+    pub use crate::backup::verif_hooks::*;
+    pub use crate::operations::{tree_walker, CopyHandle, Operation};
+}
